@@ -68,6 +68,7 @@ def run(ctx):
     from . import c11
     ctx.rule("C04.R16", "Mutable hands the in-place filters a private container for every interaction, on every path (a cached / in-memory source's own rows are never written)")
     c11.mutable_private_containers(ctx, "C04.R16")
+    r17_aliased_state(ctx, fam)
 
 
 DRAWS = {"choice", "choicew", "random", "randoms", "randint", "randints", "shuffle", "gauss", "gausses"}
@@ -1230,6 +1231,53 @@ def densify_replay(ctx, rule):
            "(one call of the table's default factory per stored key)", ok, detail={"replay over": unparse(replays[0].iter) if replays else None}, stmt="Densify replay count")
 
 
+def r17_aliased_state(ctx, fam, rule="C04.R17"):
+    """cross-read state through an alias: `x = self._attr` followed by `x[k] = ...` / x.update(...) writes into the filter's own (often the caller's) object."""
+    ctx.rule(rule, "no read-path method of a source/filter mutates one of its attributes through a local alias (`enc = self._encoders; enc[k] = fitted`): what a read learns "
+                   "(fitted encoders, look-up results) goes into containers made in that read, so the next read -- and the mapping the caller passed in -- are unaffected")
+    MUT = {"append", "extend", "update", "pop", "clear", "setdefault", "add", "remove", "insert", "popitem", "discard", "sort", "reverse"}
+    classes = dict(fam)
+    for c in ctx.model.classes:
+        if c.rel == PF:
+            classes.setdefault((c.rel, c.qual), c)
+    # helper objects that a read creates for itself (e.g. the ARFF line reader built inside ArffReader.filter) hold per-read state by construction
+    per_read = set()
+    for c in ctx.model.classes:
+        if c.rel.startswith("coba/tests"):
+            continue
+        for mname, fn in c.methods.items():
+            if mname in ("filter", "read"):
+                per_read |= {call_name(k) for k in ast.walk(fn) if isinstance(k, ast.Call) and call_name(k) and call_name(k)[:1].isupper()}
+    n = 0
+    for key, c in sorted(classes.items()):
+        if c.name in per_read:
+            continue
+        by_design = {attr for (rel, cname, attr) in BY_DESIGN if cname == c.name}
+        for mname, fn in sorted(c.methods.items()):
+            if mname in ("__init__", "__setstate__", "__getstate__", "__reduce__"):
+                continue
+            aliases = {}
+            for st in walk_shallow(fn):
+                if isinstance(st, ast.Assign) and len(st.targets) == 1 and isinstance(st.targets[0], ast.Name) and is_self_attr(st.value):
+                    aliases[st.targets[0].id] = st.value.attr
+            if not aliases:
+                continue
+            for st in ast.walk(fn):
+                hit = None
+                tg = st.targets if isinstance(st, ast.Assign) else [st.target] if isinstance(st, ast.AugAssign) else st.targets if isinstance(st, ast.Delete) else []
+                for t in tg:
+                    if isinstance(t, ast.Subscript) and isinstance(t.value, ast.Name) and t.value.id in aliases:
+                        hit = (t.value.id, st)
+                if isinstance(st, ast.Call) and isinstance(st.func, ast.Attribute) and st.func.attr in MUT and isinstance(st.func.value, ast.Name) and st.func.value.id in aliases:
+                    hit = (st.func.value.id, st)
+                if hit is None:
+                    continue
+                n += 1
+                attr = aliases[hit[0]]
+                ctx.ob(rule, c.rel, f"{c.qual}.{mname}", hit[1], f"the attribute self.{attr} is not modified through its local alias `{hit[0]}`", attr in by_design)
+    ctx.ob(rule, PF, "", None, f"alias-mutation scan of {len(classes)} source/filter classes ({n} sites)", True, stmt="alias scan", trivial=True, line=1)
+
+
 def _drop_methods(tree, cname, members):
     from ..mutate import find_def
     cls = find_def(tree, cname)
@@ -1246,6 +1294,7 @@ def _bounded_memo(tree):
 
 
 CONTROLS = [
+    ("Encode fits into the caller's mapping", PF, M.replace_expr("Encode.filter", "dict(self._encoders)", "self._encoders", nth=0), "C04.R17"),
     ("Densify replays only the started round", "coba/environments/filters.py", M.replace_expr("Densify.__setstate__", "lookup", "range(len(lookup) % self._n_feats)", nth=1), "C04.R15"),
     ("Densify without pickling hooks", "coba/environments/filters.py", lambda tree: _drop_methods(tree, "Densify", ("__getstate__", "__setstate__")), "C04.R15"),
     ("rewards pickle as unchecked repr text", "coba/primitives.py", M.chain(M.replace_expr("DiscreteReward.__getstate__", "_as_literal((self._state, self._default))", "repr((self._state, self._default))"),
@@ -1258,7 +1307,7 @@ CONTROLS = [
     ("failing source leaves a truncated buffer", PF, M.replace_stmt("Cache.filter", lambda st: isinstance(st, ast.While),
         "while current := list(islice(self._iter, n_slice)):\n    self._cache.extend(current)\n    yield from current"), "C04.R6"),
     ("save shrinks only one of the aligned lists", "coba/environments/core.py", M.delete_stmt("Environments.save", M.simple_has("self_params.pop(param_index_in_self)")), "C04.R8"),
-    ("catset rewrites the nested row in place", PR, M.replace_expr("EncodeCatRows._encode_collection", "list(row) if isinstance(row, tuple) else copy(row)", "list(row) if isinstance(row, tuple) else row", nth=0), "C04.R3"),
+    ("catset rewrites the nested row in place", PR, M.replace_expr("EncodeCatRows._encode_collection", "mutable(o[k])", "o[k]"), "C04.R3"),
     ("cache complete in finally", PF, M.replace_stmt("Cache.filter", M.simple_has("self._iter = None"), "pass"), "C04.R6") if False else
     ("yield before buffering", PF, M.swap_stmts("Cache.filter", M.simple_has("self._cache.extend(current)"), M.simple_has("yield from current")), "C04.R6"),
     ("logged shallow copy", EF, M.replace_expr("Logged.filter", "copy.deepcopy(self._learner)", "copy.copy(self._learner)"), "C04.R7"),
